@@ -90,10 +90,10 @@ ApplyIO(st, s, B) ==
          [] s.k \in {"in_dec_until", "in_idec_until"} ->      \* v = <<dst, stop_byte>>
                 LET r == ReadDec(st, s.k = "in_idec_until", Pw(16, n))
                 IN RetD([r.st EXCEPT !.vals[s.v[1]] = Put(16, V(1), n, r.v), !.vals[s.v[2]] = Put(16, V(2), 2, NatI(r.stop)),
-                                     !.addc = 0], {})
+                                     !.addc = 2], {})
          [] s.k \in {"in_dec", "in_idec"} ->
                 LET r == ReadDec(st, s.k = "in_idec", Pw(16, n))
-                    t == [r.st EXCEPT !.vals[s.v[1]] = Put(16, V(1), n, r.v), !.addc = 0]
+                    t == [r.st EXCEPT !.vals[s.v[1]] = Put(16, V(1), n, r.v), !.addc = 2]
                 IN IF r.stop \in {0, 10} THEN RetD(t, {}) ELSE BrD(t, "error", {s.v[1]})
          [] s.k = "out_hex"   -> RetD(EmitBits(st, BitsOfInt(Low(16, V(1), 1), 4)), {})
          [] s.k = "out_bytes" -> RetD(EmitBits(st, BitsOfInt(Low(B, V(1), (IF B = 16 THEN 2 ELSE 8) * n), 8 * n)), {})
@@ -115,6 +115,25 @@ ApplyIO(st, s, B) ==
                     neg == s.k = "print_dec_int" /\ Signed(B, V(1), n).neg
                     mag == IF neg THEN IMod(INeg(low), Pw(B, n)) ELSE low
                 IN RetD(EmitChars(st, (IF neg THEN <<45>> ELSE <<>>) \o DecChars(mag), 1), {})
+         \* casts between values and ASCII (bit/casting.fj): ascii is bit[:8]
+         [] s.k = "bin2ascii" -> RetD(SetV(st, 1, Put(2, V(1), 8, NatI(48 + Small(Low(2, V(2), 1))))), {})
+         [] s.k = "dec2ascii" -> LET d == Small(Low(2, V(2), 4))                          \* a decimal digit; 10..15 have no decimal character
+                                 IN RetD(SetV(st, 1, Put(2, V(1), 8, NatI(48 + d))), IF d > 9 THEN {s.v[1]} ELSE {})
+         [] s.k = "hex2ascii" -> RetD(SetV(st, 1, Put(2, V(1), 8, NatI(DigitChar(Small(Low(2, V(2), 4)), TRUE)))), {})
+         \* v = <<error, digit, ascii>>: a valid character gives its value and error = 0; otherwise error = 1 (the digit is then unspecified)
+         [] s.k = "ascii2bin" -> LET c == Small(Low(2, V(3), 8))  ok == c \in {48, 49}
+                                 IN RetD([st EXCEPT !.vals[s.v[1]] = Put(2, V(1), 1, NatI(IF ok THEN 0 ELSE 1)),
+                                                    !.vals[s.v[2]] = Put(2, V(2), 1, NatI(IF ok THEN c - 48 ELSE 0))], IF ok THEN {} ELSE {s.v[2]})
+         [] s.k = "ascii2dec" -> LET c == Small(Low(2, V(3), 8))  ok == IsDigit(c)
+                                 IN RetD([st EXCEPT !.vals[s.v[1]] = Put(2, V(1), 1, NatI(IF ok THEN 0 ELSE 1)),
+                                                    !.vals[s.v[2]] = Put(2, V(2), 4, NatI(IF ok THEN c - 48 ELSE 0))], IF ok THEN {} ELSE {s.v[2]})
+         [] s.k = "ascii2hex" -> LET c == Small(Low(2, V(3), 8))  h == HexOfChar(c)  ok == h < 16
+                                 IN RetD([st EXCEPT !.vals[s.v[1]] = Put(2, V(1), 1, NatI(IF ok THEN 0 ELSE 1)),
+                                                    !.vals[s.v[2]] = Put(2, V(2), 4, NatI(IF ok THEN h ELSE 0))], IF ok THEN {} ELSE {s.v[2]})
+         [] s.k = "print_str" ->       \* bit.print_str n, x: the first n characters of x[:8n], or up to the first 0 byte
+                LET RECURSIVE Ch(_)
+                    Ch(i) == IF i >= n THEN <<>> ELSE LET c == Small(Low(2, IShr(V(1), 8 * i), 8)) IN IF c = 0 THEN <<>> ELSE <<c>> \o Ch(i + 1)
+                IN RetD(EmitChars(st, Ch(0), 1), {})
          [] s.k = "bit2hex"   -> RetD(SetV(st, 1, Put(16, V(1), (n + 3) \div 4, Low(2, V(2), n))), {})      \* hex[:(n+3)/4] = bit[:n]
          [] s.k = "hex2bit"   -> RetD(SetV(st, 1, Put(2, V(1), 4 * n, Low(16, V(2), n))), {})               \* bit[:4n] = hex[:n]
 
@@ -262,8 +281,13 @@ ApplyCore(st, s, B) ==
         n == s.n
         L(i) == Low(B, V(i), n)
         P1(val) == Ret(Set1(st, s.v[1], Put(B, V(1), n, val)))          \* write the low n digits of the first variable
-        ClrA(t) == [t EXCEPT !.addc = 0]        \* macros built on hex.add clear the add carry (before and after)
-        ClrS(t) == [t EXCEPT !.subc = 0]        \* macros built on hex.sub clear the sub borrow
+        \* Only the single-hex hex.add / hex.sub (and the carry macros) DOCUMENT what they do with the carry flags.  A
+        \* vectored macro built on them clears the flag before it starts (or its result would be wrong - that is judged
+        \* through the value); the flag it leaves behind is not documented: UNKNOWN (2) here.  A later step whose
+        \* documented result depends on an unknown flag is unspecified as a whole (Unspec).
+        ClrA(t) == [t EXCEPT !.addc = 2]
+        ClrS(t) == [t EXCEPT !.subc = 2]
+        Unspec == [st |-> st, br |-> "ret", dc |-> {"*"}]
     IN CASE s.k = "zero"     -> P1(IZero)
          [] s.k = "one"      -> P1(ISub(Pw(B, n), IOne))                                  \* bit.one: all ones
          [] s.k = "mov"      -> P1(L(2))
@@ -286,6 +310,8 @@ ApplyCore(st, s, B) ==
                 Ret(Set1(st, s.v[1], Put(B, V(1), s.m, NatI(PopCnt(Low(B, V(2), n))))))
          [] s.k = "add"      -> [st |-> ClrA(Set1(st, s.v[1], Put(B, V(1), n, IAdd(L(1), L(2))))), br |-> "ret"]
          [] s.k = "sub"      -> [st |-> ClrS(Set1(st, s.v[1], Put(B, V(1), n, ISub(L(1), L(2))))), br |-> "ret"]
+         [] s.k = "add1" /\ st.addc = 2 -> Unspec
+         [] s.k = "sub1" /\ st.subc = 2 -> Unspec
          [] s.k = "add1"     ->         \* single hex: dst += src + carry; the carry is updated
                 LET t == IAdd(IAdd(Low(B, V(1), 1), Low(B, V(2), 1)), NatI(st.addc))
                 IN Ret([Set1(st, s.v[1], Put(B, V(1), 1, t)) EXCEPT !.addc = IF ILe(NatI(16), t) THEN 1 ELSE 0])
@@ -298,6 +324,21 @@ ApplyCore(st, s, B) ==
                 [st |-> ClrS(Set1(st, s.v[1], Put(B, V(1), n, ISub(L(1), IShl(Low(B, V(2), s.m), 4 * s.sh))))), br |-> "ret"]
          [] s.k = "add_constant" -> [st |-> ClrA(Set1(st, s.v[1], Put(B, V(1), n, IAdd(L(1), s.c)))), br |-> "ret"]
          [] s.k = "sub_constant" -> [st |-> ClrS(Set1(st, s.v[1], Put(B, V(1), n, ISub(L(1), s.c)))), br |-> "ret"]
+         \* single hex with a branch on the carry-out / borrow-out (no carry flag involved)
+         [] s.k = "inc1h"    -> [st |-> Set1(st, s.v[1], Put(B, V(1), 1, IAdd(Low(B, V(1), 1), IOne))),
+                                 br |-> IF Low(B, V(1), 1) = NatI(15) THEN "c1" ELSE "c0"]
+         [] s.k = "dec1h"    -> [st |-> Set1(st, s.v[1], Put(B, V(1), 1, ISub(Low(B, V(1), 1), IOne))),
+                                 br |-> IF IIsZero(Low(B, V(1), 1)) THEN "c1" ELSE "c0"]
+         [] s.k = "add_count_bits" -> P1(IAdd(L(1), NatI(PopCnt(Low(B, V(2), 1)))))          \* dst[:n] += number of on-bits of the hex src
+         [] s.k = "double_xor" -> Ret([st EXCEPT !.vals[s.v[1]] = Put(B, V(1), 1, IBitwise("^", Low(B, V(1), 1), Low(B, V(3), 1))),
+                                                 !.vals[s.v[2]] = Put(B, V(2), 1, IBitwise("^", Low(B, V(2), 1), Low(B, V(3), 1)))])
+         \* the carry flags themselves: c = 0 the add carry, c = 1 the sub borrow;  m = 0 clear, 1 clear with branch on the old value, 2 not, 3 set
+         [] s.k = "carry_op" ->
+                LET old == IF IIsZero(s.c) THEN st.addc ELSE st.subc
+                    new == CASE s.m \in {0, 1} -> 0 [] s.m = 2 -> (IF old = 2 THEN 2 ELSE 1 - old) [] s.m = 3 -> 1
+                    t == IF IIsZero(s.c) THEN [st EXCEPT !.addc = new] ELSE [st EXCEPT !.subc = new]
+                IN IF s.m = 1 /\ old = 2 THEN [st |-> t, br |-> "ret", dc |-> {"*"}]
+                   ELSE [st |-> t, br |-> IF s.m = 1 THEN (IF old = 0 THEN "c0" ELSE "c1") ELSE "ret"]
          [] s.k = "shl_bit"  -> P1(IShl(L(1), 1))
          [] s.k = "shr_bit"  -> P1(IShr(L(1), 1))
          [] s.k = "shl"      -> P1(IShl(L(1), (IF B = 16 THEN 4 ELSE 1) * s.sh))          \* shl_hex n, times / bit.shl n, times
@@ -365,10 +406,11 @@ ApplyCore(st, s, B) ==
                 [st |-> [st EXCEPT !.vals[s.v[1]] = Put(B, V(1), n, IFloorDiv(L(2), NatI(10))),
                                    !.vals[s.v[2]] = Put(B, V(2), n, IMod(L(2), NatI(10)))], br |-> "ret"]
 IOKeys == {"in_hex", "in_bytes", "in_bit", "in_as_hex", "in_dec_until", "in_idec_until", "in_dec", "in_idec", "out_hex", "out_bytes",
-           "out_bit", "print_digits", "print_bits", "print_uint", "print_int", "print_dec_uint", "print_dec_int", "bit2hex", "hex2bit"}
+           "out_bit", "print_digits", "print_bits", "print_uint", "print_int", "print_dec_uint", "print_dec_int", "bit2hex", "hex2bit",
+           "bin2ascii", "dec2ascii", "hex2ascii", "ascii2bin", "ascii2dec", "ascii2hex", "print_str"}
 PtrKeys == {"ptr_add", "ptr_index", "ptr_rd", "ptr_rd_nth", "ptr_xor_from", "ptr_wr", "ptr_wr_nth", "ptr_zero", "ptr_flip_data", "ptr_jump",
             "push", "pop", "push_n", "pop_n", "calls", "recurse", "ptr_mov", "buf_input_line", "buf_print_text", "buf_print_line", "buf_fill", "buf_copy"}
 Apply(st, s, B) == IF s.k \in IOKeys THEN ApplyIO(st, s, B)
                    ELSE IF s.k \in PtrKeys THEN ApplyPtr(st, s, B)
-                   ELSE LET r == ApplyCore(st, s, B) IN [st |-> r.st, br |-> r.br, dontcare |-> {}]
+                   ELSE LET r == ApplyCore(st, s, B) IN [st |-> r.st, br |-> r.br, dontcare |-> IF "dc" \in DOMAIN r THEN r.dc ELSE {}]
 =============================================================================
